@@ -27,6 +27,8 @@ func init() {
 
 func runC20(c *Ctx) {
 	p := c.P
+	hookUpgradeablesPerType(c, "R1")
+	configSectionsRemovedOnlyByAttribute(c, "R4")
 	inst := p.Fn("lfs", "(*Hook).Install")
 	upg := p.Fn("lfs", "(*Hook).Upgrade")
 	unin := p.Fn("lfs", "(*Hook).Uninstall")
